@@ -215,6 +215,10 @@ def voidElements : List (List Char) :=
   ["img", "br", "hr", "base", "meta", "link", "param", "area", "input", "col", "basefont",
    "isindex", "frame", "command", "embed", "keygen", "source", "track", "wbs"].map String.toList
 
+/-- `if root.children or nativeString(tagName) not in voidElements` -/
+def writesEndTag (name : List Char) (children : List α) : Bool :=
+  !children.isEmpty || !voidElements.contains name
+
 def isAscii (s : List Char) : Bool := s.all (fun c => c.toNat < 128)
 
 def natDigits (n : Nat) : List Char := (toString n).toList
@@ -242,7 +246,7 @@ def flattenStr : Stan → Except Err (List Char)
       match flattenAttrs attrs with
       | .error e => .error e
       | .ok as =>
-        if !children.isEmpty || !voidElements.contains name then
+        if writesEndTag name children then
           match flattenList children with
           | .ok cs => .ok ('<' :: name ++ as ++ ['>'] ++ cs ++ ['<', '/'] ++ name ++ ['>'])
           | .error e => .error e
@@ -283,7 +287,7 @@ def toks : Stan → List Tok
   | .charref n => [.charref n]
   | .tag name attrs children =>
     if name.isEmpty then toksList children
-    else if !children.isEmpty || !voidElements.contains name then
+    else if writesEndTag name children then
       .open name :: attrToks attrs ++ [.startEnd] ++ toksList children ++ [.close name]
     else .open name :: attrToks attrs ++ [.voidEnd]
 def toksList : List Stan → List Tok
